@@ -578,7 +578,27 @@ example :
     calm (init false) ops = true ∧ quiescent (runOps (init false) ops) = true ∧
     outText (runOps (init false) ops).log = ['a', 'b', '\n', 'c', 'x', '\n', '\n'] := by decide
 
+/-
+  FULL statements (no `calm` hypothesis) of `stream_invariant` / `exactly_once_after_flush` /
+  `write_contiguous` / `per_thread_order_output`:
+      ∀ raw ops, quiescent (runOps (init raw) ops) = true → outText (runOps (init raw) ops).log = allText ops
+  They are FALSE of the current code: `lost_when_loop_closes_witness` (K1) and `order_swapped_witness`
+  (K2) below refute them on concrete schedules, and the harness replays both on the real code.  The
+  theorems above are the `_partial` versions: `calm` excludes exactly those two windows.  What holds
+  without any hypothesis is `conservation` / `no_duplication`.
+-/
+theorem exactly_once_after_flush_partial (raw : Bool) (ops : List Op) (hc : calm (init raw) ops = true)
+    (hq : quiescent (runOps (init raw) ops) = true) :
+    outText (runOps (init raw) ops).log = allText ops := exactly_once_after_flush raw ops hc hq
+
 /-! ### main theorems: the prompt bracket -/
+
+/-
+  FULL statement of `inside_bracket` (no `startCalm` hypothesis) is FALSE of the current code:
+  `text_on_prompt_witness` (K3).  `inside_bracket` is the `_partial` version: `startCalm` excludes exactly
+  the schedules in which an application starts between the flush thread's `_get_app_loop() is None`
+  and its direct write.
+-/
 
 theorem binv_run (s : St) (ops : List Op) (hs : startCalm s ops = true) (h : BInv s) :
     BInv (runOps s ops) := by
@@ -596,6 +616,10 @@ theorem binv_run (s : St) (ops : List Op) (hs : startCalm s ops = true) (h : BIn
 theorem inside_bracket (raw : Bool) (ops : List Op) (hs : startCalm (init raw) ops = true) :
     phRun .off (runOps (init raw) ops).log = some (phaseOf (runOps (init raw) ops).appOn) :=
   (binv_run _ ops hs (binv_init raw)).ph
+
+theorem inside_bracket_partial (raw : Bool) (ops : List Op) (hs : startCalm (init raw) ops = true) :
+    phRun .off (runOps (init raw) ops).log = some (phaseOf (runOps (init raw) ops).appOn) :=
+  inside_bracket raw ops hs
 
 theorem phRun_split {p q : Ph} {pre post : List Ev} {e : Ev} (h : phRun p (pre ++ e :: post) = some q) :
     ∃ p1 p2, phRun p pre = some p1 ∧ phStep p1 e = some p2 ∧ phRun p2 post = some q := by
@@ -724,7 +748,7 @@ theorem alive_step (s : St) (o : Op) (ho : o ≠ .close)
 
 /-- **flusher_alive.**  Unless `close()` is called, the flush thread never terminates — whatever the
     application and its event loop do (stop, loop closed between look-up and hand-off, new loop).
-    (Before the F8 fix a closed loop killed the thread; see `Ptk.C20.Old` below.) -/
+    (Before the F8 fix a closed loop killed the thread; see `f8_old_loses_new_delivers` below.) -/
 theorem flusher_alive (raw : Bool) (ops : List Op) (hn : noClose ops = true) :
     (runOps (init raw) ops).fl ≠ .exited := by
   suffices h : ∀ s : St, hasDone s.queue = false ∧ flDone s.fl = false →
